@@ -46,6 +46,14 @@ var outlinkSets = map[string][]outlink{
 		{"http://o.example/with space?q=a b&r=50%25", "http://page.example/b?x=1", 1, 0, false},
 		{"http://ö.example/ünïcode/❤", "http://page.example/c#frag", 2, 0, false},
 	},
+	// URL texts with what an HTML/XML decoder would take for a character reference (with and without the
+	// semicolon), written out and percent-encoded: the queue stores URL texts, not markup
+	"entity-like": {
+		{"http://o.example/list?page=2&region=eu&copy=1", "http://page.example/a", 1, 0, false},
+		{"http://o.example/api?id=7&timestamp=1700000000&section=news&notify=1&currency=EUR", "http://page.example/b", 0, 0, false},
+		{"http://o.example/q?a=1&amp;b=2&#38;c=3&lt=4&quot=5", "http://page.example/c?x=1&amp;y=2", 2, 0, false},
+		{"http://o.example/p?t=a%26b%3Bc&u=%2541", "http://page.example/d", 1, 0, false},
+	},
 	// outlinks discovered over time: the second one arrives while a timer-flushed batch holding the
 	// first may be in its retry back-off, the third after everything settled
 	"timed": {
@@ -528,6 +536,9 @@ func scenarios(tier string) []scen {
 			out = append(out, scen{Queue: "hq", Outlinks: set, Workers: 2, Batch: 2, P: P, F: F, Conc: 2})
 		}
 	}
+	// URL texts that look like markup: no fault needed, both queues, a size-triggered and a timer-triggered batch
+	out = append(out, scen{Queue: "hq", Outlinks: "entity-like", Workers: 2, Batch: 2, P: 0, F: 0}, scen{Queue: "hq", Outlinks: "entity-like", Workers: 2, Batch: 100, P: 0, F: 1},
+		scen{Queue: "lq", Outlinks: "entity-like", Workers: 2, Batch: 0, P: 1, F: 0})
 	// a long run of failures on the first batch (six and nine calls in a row), no other fault
 	for _, n := range []int{6, 9} {
 		out = append(out, scen{Queue: "hq", Outlinks: "three", Workers: 1, Batch: 3, P: 0, F: 0, Outage: n})
